@@ -461,7 +461,10 @@ theorem post_parseBlocks (bytes : List Nat) :
     · exact post_err
   · refine post_bind (post_state_new _ _) ?_
     rintro ⟨st2, c2⟩ - ⟨hv2, -⟩
-    exact post_ok (Or.inr (stateV_mono hv2 l1))
+    dsimp only
+    split
+    · exact post_err
+    · exact post_ok (Or.inr (stateV_mono hv2 l1))
 
 theorem post_zone_new (tr : List Transition) (ty : List Ltt) (lp : List LeapSecond) (r : Option Rule)
     (ht : ∀ t ∈ tr, I64r t.time) (hty : ∀ t ∈ ty, LttOkZ t) (hr : ∀ x, r = some x → RuleV x) :
@@ -561,8 +564,16 @@ theorem footer_framing' (f : List Nat) (v : Version)
   · split
     · rfl
     · rename_i g
-      simp only [Bool.not_eq_true', Bool.not_eq_false, Bool.and_eq_true, beq_iff_eq] at g
-      exact absurd g h
+      simp only [Bool.or_eq_true, decide_eq_true_eq, Bool.not_eq_true', Bool.and_eq_false_iff, not_or,
+        Bool.not_eq_false, beq_iff_eq] at g
+      exact absurd g.2 h
+
+/-- repair of finding F36: a footer shorter than two bytes is refused, whatever it is -/
+theorem footer_short' (f : List Nat) (v : Version) (h : f.length < 2) : parseFooter f v = .err := by
+  unfold parseFooter
+  split
+  · rfl
+  · rw [if_pos (by simp [h])]
 
 theorem footer_colon_nul' (f : List Nat) (v : Version)
     (h : (trimWs f).head? = some 58 ∨ 0 ∈ trimWs f) : parseFooter f v = .err := by
